@@ -191,6 +191,11 @@ def opt_jobs(ck, behs, quick):
     if d <= k + 2 and k + 2 < D:
       jobs.append({"impl": "dsrun", "o": o, "shape": (k + 2, D), "behs": sel[:max(8, per // 4)], "tol": TOL32,
                    "seed": ck.seed * 31 + gi, "mixed": False})
+    # ... one sketched axis whose unfolded gradient is WIDE (8 x 320, INPUT type: a single statistic, so the open
+    # mixed-size finding does not interfere) and, the lattice history being of rank < 8, row-rank deficient
+    if d <= 6 and k + 2 < 8 and gi % 4 == 0:
+      jobs.append({"impl": "dsrun", "o": dict(o, ptype="INPUT", block_size=512), "shape": (8, 320),
+                   "behs": sel[:max(6, per // 6)], "tol": TOL32, "seed": ck.seed * 31 + gi, "mixed": False})
     # ... and of two sizes (known finding on the smaller one)
     if c["ridge"] == 0 and gi % 2 == 0 and k + 2 < D:
       jobs.append({"impl": "dsrun", "o": o, "shape": (D, D + 2), "behs": sel[:max(8, per // 5)],
